@@ -271,6 +271,14 @@ func (h *handler1) handleClientPublish(ctx context.Context, snPublish *snPkts1.P
 func (h *handler1) handleBrokerPublish(ctx context.Context, mqPublish *mqPkts.PublishPacket) error {
 	msgID := mqPublish.MessageID
 
+	// MQTT-SN does not support fragmentation: a message which does not fit
+	// into one datagram cannot be delivered.
+	if len(mqPublish.Payload) > snPkts1.MaxPayloadLength || len(mqPublish.TopicName) > snPkts1.MaxPayloadLength {
+		h.log.Error("Dropping too long message from broker: topic %d B, payload %d B",
+			len(mqPublish.TopicName), len(mqPublish.Payload))
+		return nil
+	}
+
 	// Get TopicID
 	var needsRegister bool
 	var topicID uint16
